@@ -40,7 +40,7 @@ WITNESSES = ["Saturated", "ZeroAttempts", "ClampMax", "ClampBase", "LongUnlimite
              "TwoSchedulesInterleaved"]
 DELAYS = [0, 1, 2, 5, 60]
 ATTEMPTS = [None, 0, 1, 2, 3, 64]
-CONSTS = {"Delays": set(DELAYS), "AttemptChoices": {0, 1, 2, 3, 64}, "Horizon": 70, "MaxSched": 3, "MultiHorizon": 3}
+CONSTS_BASE = {"Delays": set(DELAYS), "AttemptChoices": {0, 1, 2, 3, 64}, "Horizon": 70}
 
 
 def parameter_tuples():
@@ -83,13 +83,15 @@ def att_class(a):
 
 
 def run(ctx):
+    CONSTS = dict(CONSTS_BASE, MaxSched=2 if ctx.quick else 3, MultiHorizon=2 if ctx.quick else 3)
     # ---- the specification itself
     # NextW = Next plus stuttering witness probes (vacuity guard through the coverage statistics)
     cfg = tlc.write_cfg(os.path.join(ctx.scratch, "Reconnect.cfg"), next="NextW", constants=CONSTS, invariants=MC_INV,
                         constraints=["Bounded"], deadlock=False)
     res = tlc.check_model("Reconnect", cfg, ctx.scratch, coverage=True, timeout=600)
     ctx.add_tlc(res, "exhaustive parameters x band end points")
-    ctx.note("constants", {"Delays": DELAYS, "AttemptChoices": ["None", 0, 1, 2, 3, 64], "Horizon": 70})
+    ctx.note("constants", {"Delays": DELAYS, "AttemptChoices": ["None", 0, 1, 2, 3, 64], "Horizon": 70,
+                           "MaxSched": CONSTS["MaxSched"], "MultiHorizon": CONSTS["MultiHorizon"]})
     if res.violation:
         ctx.violation("TLC: %s violated on Reconnect.tla" % res.invariant,
                       replay={"trace": [dict(s) for _, s in res.trace()]}, signature="spec:%s" % res.invariant)
